@@ -191,6 +191,9 @@ func skipFile(pk *packages.Package, f *ast.File) bool {
 	return false
 }
 
+// leafAbstractions are small types whose methods the rules recognise by effect.
+var leafAbstractions = map[string]bool{"atomicFlag": true}
+
 // Result of one normalisation round.
 type Result struct {
 	Overlay map[string][]byte // file name -> new content (only changed files)
@@ -294,6 +297,9 @@ func (n *normaliser) index() {
 			n.decls[funcKey(fd)] = fd
 			n.declOf[obj] = fd
 			n.fileOf[fd] = f
+			if leafAbstractions[recvName(fd)] {
+				continue // rules classify these methods by what they do (rules.flagOp); inlining would dissolve them
+			}
 			if _, known := n.base.Funcs[funcKey(fd)]; !known && !fd.Name.IsExported() && fd.Name.Name != "init" && fd.Name.Name != "_" {
 				n.unknown[obj] = true
 			}
